@@ -92,7 +92,7 @@ func c01case(c GCase, a *run.Acc) {
 		gd = gram.NewGuard(env.Base)
 		gd.MaxEvents, gd.MaxCalls = 60000, 120000
 		gd.NoAssert = true // the activation bound is C02's business; here results are judged whenever the call returns
-		b = gram.Build(g, &gram.Hooks{Inside: gd.Inside, Outside: gd.Outside, MemoExpr: c.MemoExpr, ShareLeaves: true,
+		b = gram.Build(g, &gram.Hooks{Inside: gd.Inside, Outside: gd.Outside, MemoExpr: c.MemoExpr, ShareLeaves: true, ShareExprs: run.Hash(g.String())%4 >= 2,
 			// the activation bound is claimed for EVERY memoized parser, also the extra wrappers around sub-expressions
 			UnderMemo: func(e *gram.Expr, p parsley.Parser) parsley.Parser { return gd.Inside(1000+e.ID, p) }})
 		c01cache = c01built{g: g, memo: c.MemoExpr, gd: gd, b: b}
